@@ -136,6 +136,35 @@ SCENARIOS = [
 ]
 
 
+# short program histories around traps, breaks and stale state (no host fault needed)
+PSCEN = [
+    ['NEW', '10 ON ERROR GOTO 100', '20 END', '100 STOP', '110 RESUME NEXT', 'RUN', 'ERROR {n}', 'CONT', 'X=1/0', 'CONT', 'PRINT 1'],
+    ['NEW', '10 ON ERROR GOTO 100', '20 END', '100 A$=INKEY$:IF A$="" THEN 100', '110 RESUME NEXT', 'RUN', '@break', 'ERROR 5', 'CONT', 'LIST'],
+    ['NEW', '10 ON KEY(1) GOSUB 100:KEY(1) ON:ON ERROR GOTO 200', '20 FOR I=1 TO 50:NEXT', '30 END', '100 ERROR {n}', '110 RETURN', '200 RESUME NEXT', '@fkey', 'RUN', 'GOTO 20'],
+    ['NEW', '10 GOSUB 100', '20 PRINT 1:END', '100 STOP', '110 RETURN', 'RUN', 'CLEAR', 'RETURN', 'CONT', '100', 'CONT', 'RUN', 'DELETE 100', 'CONT'],
+    ['NEW', '10 PRINT "a":X=)', 'RUN', '10 A=1', '@interact', 'RUN', 'RENUM 5', 'EDIT 5', '@interact'],
+    ['NEW', '10 DEF FNA(X)=X+FNB(X):DEF FNB(X)=FNA(X)', '20 PRINT FNA({n})', 'RUN', 'PRINT FNA(1)', 'PRINT FNB({s})', 'X=FNC(1)'],
+    ['NEW', '10 OPEN "R.DAT" FOR RANDOM AS 1 LEN=8:FIELD#1,8 AS A$', '20 LSET A$="x":PUT#1,1', 'RUN', '@checkpoint', 'PRINT#1,"y":PUT#1,2:GET#1,1', 'CLOSE'],
+    ['NEW', '10 WHILE X<3:X=X+1:GOSUB 100:WEND', '20 END', '100 FOR I=1 TO 2:NEXT:RETURN {l}', 'RUN', 'WEND', 'NEXT', 'RETURN'],
+]
+
+
+def _pscen(rng):
+    out = []
+    for st in rng.choice(PSCEN):
+        if st == '@break':
+            out.append({'op': 'sig', 'what': 'break', 'poll': rng.randint(1, 6), 'text': ''})
+        elif st == '@fkey':
+            out.append({'op': 'sig', 'what': 'fkey', 'poll': rng.randint(1, 30), 'text': ''})
+        elif st == '@interact':
+            out.append({'op': 'interact', 'lines': [_fill(rng, rng.choice(TEMPLATES))]})
+        elif st == '@checkpoint':
+            out.append({'op': 'checkpoint'})
+        else:
+            out.append({'op': 'exec', 'line': _fill(rng, st)})
+    return out
+
+
 def _scenario(rng):
     stmts, kinds = rng.choice(SCENARIOS)
     out = []
@@ -160,6 +189,9 @@ def gen(rng, tier, prop):
         r = rng.random()
         if faulty and rng.random() < 0.10:
             ops.extend(_scenario(rng))
+            continue
+        if rng.random() < 0.04:
+            ops.extend(_pscen(rng))
             continue
         if r < 0.70 or not faulty:
             if rng.random() < 0.12:
